@@ -49,3 +49,45 @@ theorem C17_int64_exact_below_bound_partial (y z : Int) (h1 : -3037000499 ≤ z 
   omega
 
 end MD.Props
+
+/-! ## The dtype rule of `identification_function` and of the scores -/
+namespace MD.Props
+
+/-- which dtypes are cast to float64 before any arithmetic: every integer-like dtype in the
+scores; every one except int64 in `identification_function` (a doctest fixes its int64 output) -/
+theorem C17_cast_table :
+    DType.all.filter identCasts = [.bool, .u8, .u16, .u32, .u64, .i8, .i16, .i32] ∧
+    DType.all.filter scoreCasts = [.bool, .u8, .u16, .u32, .u64, .i8, .i16, .i32, .i64] := by
+  decide
+
+/-- **no wrap-around in `identification_function`**: for whole-numbered observations and predictions
+held in any integer dtype other than int64 the residual is the exact difference — for every pair of
+values the dtype can hold -/
+theorem C17_ident_residual_exact (d : DType) (hd : d ≠ .i64) (y z : Int) :
+    identResidual d y z = z - y := by
+  cases d <;> simp_all [identResidual, identCasts, DType.kind, DType.itemsize, DType.range, DType.wrap]
+
+/-- for int64 the residual is exact as long as the difference itself fits into int64 -/
+theorem C17_ident_residual_int64 (y z : Int) (h1 : -2 ^ 63 ≤ z - y) (h2 : z - y ≤ 2 ^ 63 - 1) :
+    identResidual .i64 y z = z - y := by
+  simp only [identResidual, identCasts, DType.kind, DType.itemsize, DType.wrap, DType.range]
+  norm_num
+  omega
+
+/-- the values that are cast are exactly representable in float64, and so is their difference:
+every dtype that is cast — except uint64 — holds integers of absolute value below `2^32`, so
+`|z − y| < 2^53` -/
+theorem C17_cast_values_exact_in_float64 (d : DType) (hc : identCasts d = true) (hd : d ≠ .u64)
+    (lo hi : Int) (hr : d.range = some (lo, hi)) (y z : Int)
+    (hy : lo ≤ y ∧ y ≤ hi) (hz : lo ≤ z ∧ z ≤ hi) :
+    -2 ^ 53 < z - y ∧ z - y < 2 ^ 53 ∧ -2 ^ 53 < y ∧ y < 2 ^ 53 ∧ -2 ^ 53 < z ∧ z < 2 ^ 53 := by
+  cases d <;> simp_all [identCasts, DType.kind, DType.itemsize, DType.range] <;>
+    (obtain ⟨rfl, rfl⟩ := hr; omega)
+
+/-- the defect that was repaired: computed inside uint8, the residual of observation 3 and
+prediction 1 is 254; inside int8, observations −100 and prediction 100 give −56 -/
+theorem C17_old_ident_counterexample :
+    identResidualOld .u8 3 1 = 254 ∧ identResidualOld .i8 (-100) 100 = -56 ∧
+    identResidual .u8 3 1 = -2 ∧ identResidual .i8 (-100) 100 = 200 := by decide
+
+end MD.Props
